@@ -101,7 +101,7 @@ Proof. unfold exceeds. destruct (sc_max c) as [m|]; [|reflexivity]. intros H. re
 Theorem bytes_parsed_fits p size s : wf_st s -> fits (view s) size ->
   exists s', bytes_parsed p size s = ([], s', Ok tt) /\ inp s' = inp s /\ view s' = bump size (view s) /\ wf_st s' /\
              List.length (store s') = List.length (store s) /\
-             (forall i, ~ In i (lst s) -> get_sc s' i = get_sc s i).
+             (forall i, ~ In i (lst s) -> get_sc s' i = get_sc s i) /\ incl (lst s') (lst s).
 Proof.
   intros [ND AL] F. unfold bytes_parsed. unfold bind at 1.
   destruct (purge_spec s) as (s0 & E0 & I0 & St0 & L0). rewrite E0. unfold bind at 1. cbn [get app].
@@ -126,5 +126,41 @@ Proof.
     rewrite (filter_ext _ _ Live), filter_filter. unfold bump. rewrite map_map. apply map_ext_in.
     intros i Hi. unfold entry_of, bump_entry. rewrite (Hin i) by (rewrite L0; exact Hi). cbn. rewrite !G0. reflexivity.
   - split; [split; [rewrite L1; exact ND0|rewrite L1, Len; exact AL0]|]. split; [rewrite Len, St0; reflexivity|].
-    intros i Hi. rewrite Hout, G0; [reflexivity|]. rewrite L0. intros Hx. apply filter_In in Hx as [Hx _]. contradiction.
+    split.
+    + intros i Hi. rewrite Hout, G0; [reflexivity|]. rewrite L0. intros Hx. apply filter_In in Hx as [Hx _]. contradiction.
+    + rewrite L1, L0. intros i Hi. apply filter_In in Hi as [Hi _]. exact Hi.
 Qed.
+
+(** ---- what a run leaves alone: constraint objects allocated before (index below [n]) and not listed are neither
+    changed nor listed afterwards; the store only grows *)
+Definition frame_from (n : nat) (a b : st) : Prop :=
+  (List.length (store a) <= List.length (store b))%nat /\
+  forall i, (i < n)%nat -> ~ In i (lst a) -> get_sc b i = get_sc a i /\ ~ In i (lst b).
+Definition frame (a b : st) : Prop := frame_from (List.length (store a)) a b.
+
+Lemma frame_from_refl n a : frame_from n a a.
+Proof. split; [lia|]. intros i _ Hi. split; [reflexivity|exact Hi]. Qed.
+Lemma frame_from_trans n a b c : frame_from n a b -> frame_from n b c -> frame_from n a c.
+Proof.
+  intros [L1 H1] [L2 H2]. split; [lia|]. intros i Hi Hn. destruct (H1 i Hi Hn) as [G1 N1].
+  destruct (H2 i Hi N1) as [G2 N2]. split; [congruence|exact N2].
+Qed.
+Lemma frame_from_le m n a b : (m <= n)%nat -> frame_from n a b -> frame_from m a b.
+Proof. intros Hmn [L H]. split; [exact L|]. intros i Hi. apply H. lia. Qed.
+Lemma frame_refl a : frame a a.
+Proof. apply frame_from_refl. Qed.
+Lemma frame_trans a b c : frame a b -> frame b c -> frame a c.
+Proof. intros H1 H2. eapply frame_from_trans; [exact H1|]. eapply frame_from_le; [|exact H2]. destruct H1 as [L _]. exact L. Qed.
+Lemma frame_weaken n a b : (n <= List.length (store a))%nat -> frame a b -> frame_from n a b.
+Proof. intros Hn H. eapply frame_from_le; [exact Hn|exact H]. Qed.
+(** a step that only rewrites the entry of [cid] and lists at most [cid] in addition *)
+Lemma frame_from_only cid n a b : (n <= cid)%nat -> (List.length (store a) <= List.length (store b))%nat ->
+  (forall i, i <> cid -> get_sc b i = get_sc a i) -> (forall i, In i (lst b) -> In i (lst a) \/ i = cid) -> frame_from n a b.
+Proof.
+  intros Hn L G I. split; [exact L|]. intros i Hi Hni. split; [apply G; lia|].
+  intros Hx. destruct (I i Hx) as [Hy|Hy]; [contradiction|lia].
+Qed.
+(** frames ignore the input *)
+Lemma frame_from_inp n a b ia ib : frame_from n a b -> frame_from n (mkSt ia (store a) (lst a)) (mkSt ib (store b) (lst b)).
+Proof. intros H. exact H. Qed.
+
